@@ -100,6 +100,15 @@ def c01_shapes(tier):
                                 (['-s', S(0) + '=' + S(1)], ['s1', 's2'], ['s=$0=$1']), (['-s' + S(0) + '=' + S(1)], ['s1', 's2'], ['s=$0=$1']), (['--name', S(0) + '='], ['s2'], ['s=$0=']), (['--nam=' + S(0) + '=='], ['s1'], ['s=$0==']),
                                 (['-s', ''], [], ['s=']), (['--name='], [], ['s=']), (['--name', '', '-f'], [], ['s=', 'f=1']), (['-fs', ''], [], ['s=', 'f=1']), (['-g', '--name=', '-n', S(0)], ['d2'], ['s=', 'g=1', 'n=#0'])):
         shapes.append(('hx_pa', [0, 0], lab('c01/value with = or empty', words), {'pa_tmpl': tmpl('ok', items, slots, words)}))
+    # values that begin / end with blanks reach the destination unchanged
+    for words, slots, items in ((['--name= ' + S(0) + ' '], ['s2'], ['s= $0 ']), (['-s', '  ' + S(0)], ['s2'], ['s=  $0']), (['-s' + S(0) + ' ', '-f'], ['s1'], ['s=$0 ', 'f=1']), (['--name', S(0) + ' ' + S(1) + '  '], ['s1', 's2'], ['s=$0 $1  ']), (['-s', ' '], [], ['s= '])):
+        shapes.append(('hx_pa', [0, 0], lab('c01/value with blanks', [w.replace(' ', '_') for w in words]), {'pa_tmpl': tmpl('ok', items, slots, words)}))
+    # one handler object evaluates two command lines: the second one is evaluated like the first (nothing is left over)
+    R3 = ['r2:10:19', 'r2:20:29', 'r2:30:39']
+    for words, items, opt, fl in ((['-f', '-v', S(0), S(1), '\x04', S(2)], ['v=7,#0,#1', 'fv=#2', 'f=1'], 32 | 64, 0), (['-e', S(0), S(1), '\x04', S(2), '-f'], ['c=#0,#1', 'fv=#2', 'f=1'], 32 | 64, 0),
+                                  (['-v', S(0), S(1), '-q', '\x04', S(2), '-f'], ['v=7,#0,#1', 'fv=#2', 'f=1'], 32 | 64, 1), (['-e', S(0), '--zz', '\x04', S(1), S(2)], ['c=#0', 'fv=#1,#2'], 32 | 64, 1),
+                                  (['-f', '\x04', '-v', S(0)], ['v=7,#0', 'f=1'], 0, 0)):
+        shapes.append(('hx_pa_twice', [6, (opt << 8) | fl], lab('c01/two evaluations', words), {'pa_tmpl': tmpl('ok', items, R3, words)}))
     # value mode 'command': the rest of the command line, joined by blanks, is the value
     for words, slots, items in ((['-x', S(0)], ['s2'], ['k=$0', 'f=0']), (['-f', '-x', S(0), S(1)], ['s2', 's1'], ['k=$0 $1', 'f=1']), (['-x', S(0), '-f', '-n', S(1)], ['s2', 'd2'], ['k=$0 -f -n $1', 'f=0', 'n=_']),
                                 (['-n', S(1), '-x', S(0), '--name=' + S(0)], ['s2', 'd2'], ['k=$0 --name=$0', 'n=#1', 's=_']), (['-f', '-x', S(0), S(0)], ['s1'], ['k=$0 $0', 'f=1'])):     # (the library supports this value mode only for a short key alone in its word)
@@ -141,11 +150,14 @@ def float_rules():
     """checked floating point destinations of cfg 15: ratio in [0.5, 2.5), quota in [1.5, 7.5) (lower() is inclusive, upper() exclusive, as documented)"""
     ok = [(['-r', '0.' + S(0) + S(1)], ['r1:5:9', 'd1'], ['ratio=0.#0#1']), (['--ratio=' + S(0) + '.' + S(1)], ['r1:1:1', 'd1'], ['ratio=#0.#1']), (['-r2.' + S(0)], ['r1:0:4'], ['ratio=2.#0']),
           (['-r', '0.5'], [], ['ratio=0.5']), (['-r', '2.4999'], [], ['ratio=2.4999']), (['-q', '1.5'], [], ['quota=1.5']), (['-q', '7.4999'], [], ['quota=7.4999']),
-          (['-q', S(0) + '.' + S(1)], ['r1:2:6', 'd1'], ['quota=#0.#1']), (['--quota=1.' + S(0), '-f'], ['r1:5:9'], ['quota=1.#0', 'f=1']), (['-q7.' + S(0)], ['r1:0:4'], ['quota=7.#0']), (['-d', '--', '1.5'], [], ['dbl=1.5'])]
+          (['-q', S(0) + '.' + S(1)], ['r1:2:6', 'd1'], ['quota=#0.#1']), (['--quota=1.' + S(0), '-f'], ['r1:5:9'], ['quota=1.#0', 'f=1']), (['-q7.' + S(0)], ['r1:0:4'], ['quota=7.#0']), (['-d', '--', '1.5'], [], ['dbl=1.5']), (['-w', S(0)], ['r1:1:9'], ['weight=#0.0']), (['--weight=9'], [], ['weight=9.0'])]
     bad = [(['-r', '0.' + S(0) + S(1)], ['r1:0:4', 'd1'], []), (['-r', S(0) + '.' + S(1)], ['r1:3:9', 'd1'], []), (['-r2.' + S(0)], ['r1:5:9'], []), (['-r', '2.5'], [], []), (['-r', '0.4999'], [], []),
            (['-q', S(0) + '.' + S(1)], ['r1:0:0', 'd1'], []), (['-q1.' + S(0)], ['r1:0:4'], []), (['-q', '7.' + S(0)], ['r1:5:9'], []), (['-q', S(0) + '.' + S(1)], ['r1:8:9', 'd1'], []), (['-q', '7.5'], [], []),
            (['-d', '1.5' + S(0)], ['a1'], []), (['-d', S(0)], ['a2'], []), (['--double='], [], []), (['-d'], [], []), (['-x', '1,5'], [], []), (['-d', '1e'], [], []), (['-d', '1.5', '-d', '2.5'], [], []),
-           (['-x', '1e99'], [], []), (['-d', '1.2.3'], [], []), (['-d', '--'], [], [])]
+           (['-x', '1e99'], [], []), (['-d', '1.2.3'], [], []), (['-d', '--'], [], []),
+           # integer limits [1, 10) on a double destination: whatever the notation, a value outside the range is refused
+           (['-w', '1e3'], [], []), (['-w', S(0) + 'e' + S(1)], ['r1:1:9', 'r1:1:3'], []), (['-w', '2.5e+2'], [], []), (['-w', '-0.5'], [], []), (['-w', '95.0'], [], []), (['-w', '0.5'], [], []), (['-w', S(0) + S(1)], ['r1:1:9', 'd1'], []),
+           (['-w', '10'], [], []), (['-w', '0'], [], [])]
     return ok, bad
 
 
@@ -253,6 +265,14 @@ def rules():
            (['-v', S(0)], ['d2'], []), (['-v', S(0) + ',' + S(1) + ',' + S(2) + ',' + S(0)], ['d1', 'd1', 'd1'], []), (['-v', S(0) + ',' + S(1), '-v', S(2) + ',' + S(0)], ['d1', 'd1', 'd1'], []), (['-v', S(0), '-f'], ['d1'], []),
            (['-u', '-u'], [], []), (['-d', S(0)], ['d2'], []), (['--dep=' + S(0)], ['d1'], []), (['-r', S(0)], ['d2'], []), (['--repl', S(0), '-f'], ['d2'], []), (['-f', '--de', S(0)], ['d1'], []), (['-p'], [], []), (['-p', S(0), '-p', S(1)], ['s2', 's2'], [])]
     fam.append((18, ok, bad))
+    # cfg 19: the lines of cfg 8 against constraint lists written with dashes / in normalised form
+    c8 = [f for f in fam if f[0] == 8][0]
+    fam.append((19, c8[1], c8[2]))
+    # cfg 20: constraints over short-only keys written with their dash
+    ok = [(['-a', '-b', '-x'], [], ['a=1', 'b=1', 'x=1']), (['-y', '-b', '-a', '-p'], [], ['a=1', 'b=1', 'y=1', 'p=1']), (['-x', '-r', '-b', '-a'], [], ['r=1', 'x=1']), (['-q', '-ab', '-y', '-g'], [], ['q=1', 'g=1', 'y=1']), (['-r', '-a', '-b', '-x'], [], ['r=1'])]
+    bad = [(['-x'], [], []), (['-a', '-x'], [], []), (['-b', '-y'], [], []), (['-a', '-b'], [], []), (['-a', '-b', '-x', '-y'], [], []), (['-a', '-b', '-x', '-p', '-q'], [], []), (['-a', '-b', '-y', '-g', '-p'], [], []),
+           (['-x', '-r'], [], []), (['-b', '-x', '-r'], [], [])]
+    fam.append((20, ok, bad))
     # cfg 4: one_of(a;b)
     ok = [(['-a'], [], ['a=1']), (['-b'], [], ['b=1']), (['-n', S(0), '-b'], ['d2'], ['b=1', 'n=#0']), (['-a', '--number=' + S(0)], ['d2'], ['a=1', 'n=#0'])]
     bad = [([], [], []), (['-n', S(0)], ['d2'], []), (['-a', '-b'], [], []), (['-b', '-n', S(0), '-a'], ['d2'], [])]
@@ -362,6 +382,15 @@ def c04_shapes(tier):
     shapes.append(('hx_pa_argfile', [0, 0], 'c04/argfile names itself', {'pa_tmpl': tmpl('safe', [], [], ['-f', '\x03', '--arg-file', '/tmp/vs_home/args.txt', '\x02', '-g'])}))
     shapes.append(('hx_pa_argfile', [0, 1], 'c04/argfile names itself (first line)', {'pa_tmpl': tmpl('safe', [], [], ['--arg-file=/tmp/vs_home/args.txt', '\x03', '-f', '\x02', '-g'])}))
     shapes.append(('hx_pa_argfile', [0, 0], 'c04/argfile names a missing file', {'pa_tmpl': tmpl('safe', [], ['s2'], ['--arg-file', '/tmp/vs_home/' + S(0), '\x02', '-g'])}))
+    # key-value destination with the default and two custom pair formats: arbitrary bytes as value list / inside the enclosing characters
+    for opt in (0, 256, 512):
+        for words, slots in ((['-m', S(0)], ['b1']), (['-m', S(0)], ['b2']), (['-m', S(0)], ['b3']), (['-m', '|' + S(0) + '|'], ['b2']), (['-m', '{' + S(0) + '}'], ['b2']), (['-m', '|;{;}'], []), (['-m', '|'], []), (['-m', '{'], []), (['-m', '||'], []),
+                             (['--map=' + S(0) + ';' + S(1)], ['b1', 'b1']), (['-m', '|1=' + S(0) + '|;|'], ['b1'])):
+            shapes.append(('hx_pa', [11, opt << 8], lab('c04/pair format%d' % opt, words), {'pa_tmpl': tmpl('safe', [], slots, words)}))
+    # help for a single argument: known, unknown and arbitrary keys
+    for words, slots in ((['--help-arg', S(0)], ['b2']), (['--help-arg-full', S(0)], ['b2']), (['--help-arg-full=' + S(0)], ['b1']), (['--help-arg-full', 'x'], []), (['--help-arg-full=--nosuch'], []), (['--help-arg-full=-'], []), (['--help-arg-full', 'number'], []),
+                         (['--help-arg-full=n', '-f'], []), (['--help-arg', 'zz'], []), (['--help-arg-full'], []), (['--help-arg='], [])):
+        shapes.append(('hx_pa_help', [0, 0], lab('c04/help-arg', words), {'pa_tmpl': tmpl('safe', [], slots, words)}))
     # sources: environment variable with arbitrary content; program-argument file that cannot be opened
     for l in (1, 2, 3):
         shapes.append(('hx_pa_env', [0, 0], 'c04/env%d' % l, {'pa_tmpl': tmpl('safe', [], ['b%d' % l], [S(0)])}))
@@ -439,6 +468,18 @@ def c06_shapes(tier):
     for words, items in ((['-v', S(0), S(1), '--endvalues', S(2), '-f'], ['v=7,#0,#1', 'fv=#2', 'f=1']), (['-v', S(0), '--endvalues', S(1), '-e', S(2), S(0), '--endvalues', S(2)], ['v=7,#0', 'c=#2,#0', 'fv=#1,#2']),
                          (['-e', S(0), S(1), '--endvalues', S(2), '-e', S(1), '--endvalues', S(0), '-f'], ['c=#0,#1,#1', 'fv=#2,#0', 'f=1'])):
         shapes.append(('hx_pa', [6, 2 | ((32 | 64) << 8)], lab('c06/endvalues', words), {'pa_tmpl': tmpl('ok', items, SU, words)}))
+    for words, items, opt, fl in ((['-v', S(0), S(1), '\x04', S(2)], ['v=7,#0,#1', 'fv=#2'], 32 | 64, 0), (['-v', S(0), S(1), '-q', '\x04', S(2), '-f'], ['v=7,#0,#1', 'fv=#2', 'f=1'], 32 | 64, 1), (['-e', S(0), '\x04', '-e', S(1) + ',' + S(2)], ['c=#0,#1,#2'], 0, 0)):
+        shapes.append(('hx_pa_twice', [6, (opt << 8) | fl], lab('c06/two evaluations', words), {'pa_tmpl': tmpl('ok', items, ['r2:10:19', 'r2:20:29', 'r2:30:39'], words)}))
+    # bitset: positions set, or cleared with unsetFlag(), with and without a value formatter
+    for opt, item in ((0, 'bss'), (4096, 'bss'), (2048, 'bsc'), (2048 | 4096, 'bsc')):
+        for words in (['-b', S(0) + ',' + S(1)], ['-b', S(0), '--bits=' + S(1)], ['-b' + S(0)]):
+            shapes.append(('hx_pa', [6, opt << 8], lab('c06/bitset opt%d' % opt, words), {'pa_tmpl': tmpl('ok', ['%s=#0%s' % (item, ',#1' if S(1) in ' '.join(words) else '')], ['r1:0:7', 'r1:0:7'], words)}))
+    # checks are applied to every single element of fixed-size and set destinations too
+    for key, item, tail in (('y', 'sa', ''), ('a', 'arr', ''), ('t', 'st', '')):
+        for words in (['-' + key, S(0) + ',' + S(1) + ',' + S(2)], ['-' + key, S(0), '-' + key, S(1) + ',' + S(2)]):
+            shapes.append(('hx_pa', [6, 1024 << 8], lab('c06/checked elements', words), {'pa_tmpl': tmpl('ok', ['%s=#0,#1,#2' % item], ['r2:10:39', 'r2:40:69', 'r2:70:99'], words)}))
+        for words, slots in ((['-' + key, S(0) + ',' + S(1)], ['r2:10:99', 'z2:10:100']), (['-' + key, S(1) + ',' + S(0)], ['r2:10:99', 'z2:10:100']), (['-' + key, S(0) + ',' + S(0) + ',' + S(1)], ['r2:10:99', 'r3:100:999'])):
+            shapes.append(('hx_pa', [6, 1024 << 8], lab('c06/checked elements bad', words), {'pa_tmpl': tmpl('throw', [], slots, words)}))
     # unique: the same slot twice
     for words in (['-v', S(0) + ',' + S(1) + ',' + S(0)], ['-v', S(0), '-v', S(1), '-v', S(0)], ['-v', S(0) + ',' + S(0)]):
         exp = ['v=7,#0,#1'] if S(1) in ' '.join(words) else ['v=7,#0']
